@@ -33,7 +33,7 @@ MANIFEST = {
                  'attribute kind x policy x datum under a recording '
                  'security policy; non-interference (two-run) and mediation '
                  '(policy log) oracles',
-    'text': 'A table of 121 access channels (client lookup, with / with '
+    'text': 'A table of 126 access channels (client lookup, with / with '
             'only, attribute / item / _.getattr / _[...] access in '
             'expressions, dtml-in items as objects and 2-tuples, '
             'skip_unauthorized, sequence-var-, first-/last-, the ten '
@@ -166,6 +166,18 @@ def prerendered_sub(builder, subsrc):
         ns['presub'] = sub
         return client, ns
     return build
+
+
+class StrNode(Node):
+    """an item whose text form shows its (public) data"""
+
+    def __str__(self):
+        return 'item:%s' % self.pubdata
+
+
+def ns_seq_refused_str(attr, datum, other=None):
+    return None, {'seq': [StrNode(pubdata=datum, refuse_item=True),
+                          StrNode(pubdata='shown')]}
 
 
 def ns_client(attr, datum, other=None):
@@ -357,6 +369,16 @@ CHANNELS = [
      '<dtml-var pubdata>,</dtml-in>', ns_seq_refused, 'items'),
     ('item-in-seqitem', '<dtml-in seq no_push_item><dtml-var '
      '"_[\'sequence-item\'].pubdata">,</dtml-in>', ns_seq_refused, 'items'),
+    ('item-in-nopush-seqitem-var', '<dtml-in seq no_push_item><dtml-var '
+     'sequence-item>,</dtml-in>', ns_seq_refused_str, 'items'),
+    ('item-in-nopush-prefix-item', '<dtml-in seq no_push_item prefix=p>'
+     '<dtml-var p_item>,</dtml-in>', ns_seq_refused_str, 'items'),
+    ('item-in-nopush-batch', '<dtml-in seq no_push_item size=2><dtml-var '
+     'sequence-item>,</dtml-in>', ns_seq_refused_str, 'items'),
+    ('item-in-nopush-skip', '<dtml-in seq no_push_item skip_unauthorized>'
+     '<dtml-var sequence-item>,</dtml-in>', ns_seq_refused_str, 'items'),
+    ('item-in-seqitem-var', '<dtml-in seq><dtml-var sequence-item>,'
+     '</dtml-in>', ns_seq_refused_str, 'items'),
     ('item-expr', '<dtml-var "seq[0].pubdata">', ns_seq_refused, 'items'),
     ('item-tree', '<dtml-tree root><dtml-var label>,</dtml-tree>',
      ns_tree_refused, 'items'),
